@@ -184,6 +184,9 @@ def _np_grouped_op(
 
 def _nan_grouped_op(group_idx, array, func, fillna, *args, **kwargs):
     if fillna in [dtypes.INF, dtypes.NINF]:
+        if kwargs.get("dtype", None) is not None:
+            # the substitute is chosen for the requested dtype, so the data must have it too
+            array = array.astype(kwargs["dtype"], copy=False)
         fillna = dtypes._get_fill_value(kwargs.get("dtype", None) or array.dtype, fillna)
     result = func(group_idx, np.where(isnull(array), fillna, array), *args, **kwargs)
     # np.nanmax([np.nan, np.nan]) = np.nan
